@@ -1277,6 +1277,15 @@ func (t *typeParser) parse() typeParserResult {
 			}
 		}
 
+		if count == 0 {
+			// a composite made of nothing but a collections param has no component types;
+			// callers index types[0], so treat it as a custom type like any other unparsable definition
+			return typeParserResult{
+				types:    []TypeInfo{NativeType{typ: TypeCustom, custom: t.input}},
+				reversed: []bool{false},
+			}
+		}
+
 		types := make([]TypeInfo, count)
 		reversed := make([]bool, count)
 
